@@ -9,6 +9,7 @@ CONTRACT_MODULES = [
     'contracts.info',
     'contracts.matcher',
     'contracts.loader',
+    'contracts.cmdline',
 ]
 
 CFG = 'cfgparser.ZConfigParser.'
@@ -26,6 +27,15 @@ MATCHER = ['matcher.BaseMatcher.__init__', 'matcher.BaseMatcher.addValue', 'matc
            'matcher.BaseMatcher.createValue', 'matcher.SectionMatcher.createValue', 'matcher.SectionValue.__init__',
            'info.KeyInfo.getdefault', 'info.MultiKeyInfo.getdefault', 'info.SectionInfo.getdefault']
 
+CMDLINE = ['cmdline.ExtendedConfigLoader.__init__', 'cmdline.ExtendedConfigLoader.addOption',
+           'cmdline.ExtendedConfigLoader.cook', 'cmdline.ExtendedConfigLoader.createSchemaMatcher',
+           'cmdline.OptionBag.__init__', 'cmdline.OptionBag.basic_key', 'cmdline.OptionBag.add_value',
+           'cmdline.OptionBag.__contains__', 'cmdline.OptionBag.get_key', 'cmdline.OptionBag.keys',
+           'cmdline.OptionBag.get_section_info', 'cmdline.OptionBag._is_type_name', 'cmdline.OptionBag.finish',
+           'cmdline.MatcherMixin.set_optionbag', 'cmdline.MatcherMixin.addValue',
+           'cmdline.MatcherMixin.createChildMatcher', 'cmdline.MatcherMixin.finish_optionbag',
+           'matcher.SchemaMatcher.__init__', 'loader.ConfigLoader.__init__', 'loader.ConfigLoader.createSchemaMatcher']
+
 PROPS = {
     'C01': {'functions': INFO_MATCH + MATCHER, 'standin': True},
     'C02': {'functions': ['info.ValueInfo.convert'] + MATCHER, 'standin': True},
@@ -38,7 +48,7 @@ PROPS = {
             'rx': ['rx:substitution._name_re'], 'standin': True},
     'C06': {'functions': [CFG + '__init__', CFG + 'parse', CFG + 'handle_include', CFG + 'end_section'],
             'standin': True},
-    'C07': {'functions': CFG_ALL + ['substitution.substitute', 'substitution._split', 'info.ValueInfo.convert'],
+    'C07': {'functions': CFG_ALL + ['substitution.substitute', 'substitution._split', 'info.ValueInfo.convert'] + CMDLINE,
             'standin': True},
     'C08': {'functions': [CFG + n for n in ('error', 'replace', 'handle_key_value', 'handle_define',
                                             'start_section', 'end_section', 'nextline')]
@@ -60,7 +70,7 @@ PROPS = {
     # frame and ownership obligations of every function of a load that touches schema objects: the
     # modifies clauses name only matcher / loader state, results are fresh containers
     'C13': {'functions': INFO_MATCH + MATCHER, 'standin': True},
-    'C14': {'functions': [], 'standin': True},
+    'C14': {'functions': CMDLINE, 'standin': True},
     'C15': {'functions': [CFG + n for n in ('_normalize_case', 'nextline', 'start_section', 'end_section',
                                             'parse', 'handle_define')], 'standin': True},
     'C16': {'functions': ['loader.CompositeHandler.__init__', 'loader.CompositeHandler.__call__',
